@@ -70,10 +70,18 @@ func defaultReturnHandler() ReturnHandler {
 			respVal = respVal.Elem()
 		}
 
+		var body []byte
 		if isByteSlice(respVal) {
-			_, _ = w.Write(respVal.Bytes())
+			body = respVal.Bytes()
 		} else {
-			_, _ = w.Write([]byte(respVal.String()))
+			body = []byte(respVal.String())
 		}
+
+		// Same as zero values, there is nothing to write for empty values, e.g. an
+		// empty but non-nil byte slice or a pointer to an empty string.
+		if len(body) == 0 {
+			return
+		}
+		_, _ = w.Write(body)
 	}
 }
